@@ -305,9 +305,9 @@ func c7Slots(c *Cfg, repo string, r *Rng) []c7slot {
 	for _, p := range corpus {
 		slots = append(slots, c7slot{prog: p})
 	}
-	nGen := c.Pick(900, 9000)
+	nGen := c.Pick(900, 6000)
 	if c.Focus {
-		nGen = c.Pick(2500, 9000)
+		nGen = c.Pick(2500, 6000)
 	}
 	gr := r.Sub()
 	for i := 0; i < nGen; i++ {
